@@ -90,7 +90,7 @@ pub fn run(args: &Args) {
         }
         let store: Vec<u32> = (0..nsig + 1).map(|_| rng.below(4) as u32).collect();
         let nw = rng.below(6);
-        let ws: Vec<String> = (0..nw).map(|_| format!("{}={}", rng.below(nsig), rng.below(7))).collect();
+        let ws: Vec<String> = (0..nw).map(|_| format!("{}={}", rng.below(nsig), rng.below(8))).collect();
         push(&vds, &store, &if ws.is_empty() { "-".to_string() } else { ws.join(",") });
     }
     std::fs::create_dir_all(&args.out).unwrap();
